@@ -117,7 +117,8 @@ class World:
                     if k != "ok" or k2 != "ok" or (r2.prefix, r2.namespaceURI) != (r.prefix, r.namespaceURI):
                         raise Viol("namespace_rule_wellformed", f"{where}:nsrule-text", f"after {where}: @namespace rule ({r.prefix!r}, {r.namespaceURI!r}) serialises as {text!r}")
             # V2 every URI used by a selector is declared
-            declared = set(got.values())
+            # (declared by some @namespace rule: with two rules binding one prefix the mapping shows only one of them)
+            declared = set(got.values()) | {u for _, u in rules}
             for r in style_rules(s):
                 for sel in r.selectorList:
                     for kind, uri, local in pairs_of(sel):
@@ -159,6 +160,10 @@ class World:
         if k != "ok":
             raise Viol("V5_restart", "restart:reparse-raises", f"{b!r}: {s2!r}")
         m1, m2 = dict(s.namespaces.items()), dict(s2.namespaces.items())
+        if ref_mapping(ns_rules(s)) is None:
+            # one prefix bound to two URIs (reachable through the prefix setter of a rule): which one wins is not
+            # fixed by the statement, and the parser keeps one rule per prefix - nothing to compare
+            return "ambiguous"
         if m1 != m2:
             raise Viol("V5_restart", "restart:mapping", f"mapping {m1} but {b!r} reparses to {m2}")
         r1, r2 = style_rules(s), style_rules(s2)
@@ -220,6 +225,11 @@ class World:
                 kk, v = lib.call(s.add, text)
             else:
                 kk, v = lib.call(s.insertRule, text, op["index"] % (len(s.cssRules) + 1))
+        elif k == "rule_prefix":
+            rules = [r for r in s.cssRules if r.typeString == "NAMESPACE_RULE"]
+            if not rules:
+                return "none"
+            kk, v = lib.call(setattr, rules[op["i"] % len(rules)], "prefix", op["prefix"])
         elif k == "del_ns_rule":
             rules = [r for r in s.cssRules if r.typeString == "NAMESPACE_RULE"]
             if not rules:
@@ -301,6 +311,8 @@ class World:
         else:
             self.stats["accepted"] += 1
             out = "ok"
+        if expect_reject and ref_mapping([(p, u) for p, u in before[1]]) is None:
+            expect_reject = None  # ambiguous prefix state: which URI a prefix denotes is open
         if expect_reject:
             after = self.snapshot(s)
             self.stats["oracle"] += 1
@@ -392,7 +404,7 @@ def gen_op(r, w, i):
     cfg = w.cfg
     if i >= cfg["n_ops"]:
         return None
-    k = r.choice(["ns_set", "ns_set", "ns_del", "add_ns_rule", "del_ns_rule", "add_style", "add_style", "add_style", "set_selector", "move", "sheet_text", "restart"])
+    k = r.choice(["ns_set", "ns_set", "ns_del", "add_ns_rule", "del_ns_rule", "rule_prefix", "add_style", "add_style", "add_style", "set_selector", "move", "sheet_text", "restart"])
     s = r.randrange(0, 2)
     if k == "ns_set":
         return {"op": k, "s": s, "prefix": r.choice(PREFIXES), "uri": r.choice(URIS)}
@@ -402,6 +414,8 @@ def gen_op(r, w, i):
         return {"op": k, "s": s, "prefix": r.choice(PREFIXES), "uri": r.choice(URIS), "index": r.choice([None, None, 0, 1, 2, 5])}
     if k == "del_ns_rule":
         return {"op": k, "s": s, "i": r.randrange(0, 4)}
+    if k == "rule_prefix":
+        return {"op": k, "s": s, "i": r.randrange(0, 4), "prefix": r.choice(PREFIXES + ["k"])}
     if k == "add_style":
         return {"op": k, "s": s, "sels": [gen_sel(r) for _ in range(r.choice([1, 1, 2]))], "in_media": r.random() < 0.25}
     if k == "set_selector":
